@@ -284,6 +284,104 @@ theorem run_sound_scalar (cfg : Cfg) (hcm : cfg.comments = false) (bs : Bytes)
         (repeat' split at hns) <;> cases hns <;> omega
       simp [parseValue, h123, h91, h34, e1.1, e1.2.1, e1.2.2, hp]
 
+/-! ### a string at the root, without `\u` escapes -/
+
+/-- no backslash is followed by `u` -/
+def NoU (cs : Bytes) : Prop := ∀ pre post, cs ≠ pre ++ 92 :: 117 :: post
+
+theorem NoU.tail {c : Nat} {cs : Bytes} (h : NoU (c :: cs)) : NoU cs := by
+  intro pre post e; exact h (c :: pre) post (by rw [e]; rfl)
+
+theorem stepString_ctl (s : St) (c : Nat) (hss : s.ss = .text) (h32 : c < 32) : (stepString s c).err.isSome = true := by
+  by_cases hctl : isCtl c = true
+  · simp [stepString, hss, hctl, fail]
+  · have : c = 10 ∨ c = 13 ∨ c = 9 := by
+      simp only [isCtl, Bool.and_eq_true, decide_eq_true_eq, bne_iff_ne, ne_eq] at hctl; omega
+    simp [stepString, hss, hctl, this, fail]
+
+theorem stepString_bad_esc (s : St) (e : Nat) (hss : s.ss = .escape) (h : simpleEsc e = none) (h117 : e ≠ 117) :
+    stepString s e = fail s eIllegalEscaped := by
+  unfold simpleEsc at h
+  (repeat' split at h) <;> simp_all [stepString]
+
+theorem chars_sound (cfg : Cfg) : ∀ (fuel : Nat) (cs : Bytes) (s : St), cs.length < fuel → s.st = .string → s.ss = .text →
+    s.err = none → s.stack = [.root] → NoU cs → accepted (finish (feed cfg s cs)) = true →
+    ∃ b rest, Spec.Rfc8259.parseChars fuel cs = some (b, rest) ∧ validate (s.buf ++ b) = none ∧ dropWs rest = []
+  | 0, _, _, hl, _, _, _, _, _, _ => by omega
+  | fuel + 1, [], s, _, hst, _, he, _, _, h => by
+    rw [feed_nil, finish_eof_fail s he (by simp [finish1, hst, fail])] at h; cases h
+  | fuel + 1, c :: cs, s, hl, hst, hss, he, hstk, hnu, h => by
+    rw [feed_cons, feedChar_string cfg s c hst he] at h
+    by_cases h34 : c = 34
+    · subst h34
+      rw [stepString_quote s hss] at h
+      cases hv : validate s.buf with
+      | some code =>
+        have : (endString s).err.isSome = true := by simp [endString, hv, fail]
+        rw [dead cfg _ cs this] at h; cases h
+      | none =>
+        rw [endString_ctx Ctx.root s hstk hv] at h
+        exact ⟨[], cs, by simp [Spec.Rfc8259.parseChars], by simpa using hv,
+          accept_sound cfg cs { s with st := afterSt 0, evs := Ev.str s.buf s.noesc :: s.evs } (Or.inl rfl) he h⟩
+    by_cases h32 : c < 32
+    · rw [dead cfg _ cs (stepString_ctl s c hss h32)] at h; cases h
+    by_cases h92 : c = 92
+    · subst h92
+      rw [stepString_backslash s hss] at h
+      cases cs with
+      | nil =>
+        rw [feed_nil, finish_eof_fail { s with ss := .escape, noesc := false } he (by simp [finish1, hst, fail])] at h; cases h
+      | cons e r =>
+        rw [feed_cons, feedChar_string cfg _ e (by simp [hst]) (by simp [he])] at h
+        cases hse : simpleEsc e with
+        | some bb =>
+          rw [stepString_simple_esc _ e bb rfl hse] at h
+          obtain ⟨b, rest, e1, e2, e3⟩ := chars_sound cfg fuel r
+            { s with ss := .text, noesc := false, buf := s.buf ++ [bb] } (by simp at hl; omega) hst rfl he hstk hnu.tail.tail h
+          exact ⟨bb :: b, rest, by rw [parseChars_simple_esc fuel e bb r hse, e1]; rfl, by simpa using e2, e3⟩
+        | none =>
+          by_cases h117 : e = 117
+          · subst h117; exact absurd rfl (hnu [] r)
+          · rw [stepString_bad_esc _ e rfl hse h117, dead cfg _ r (by simp [fail])] at h; cases h
+    · rw [stepString_plain s c hss h34 h32 h92] at h
+      obtain ⟨b, rest, e1, e2, e3⟩ := chars_sound cfg fuel cs { s with buf := s.buf ++ [c] } (by simp at hl; omega)
+        hst hss he hstk hnu.tail h
+      refine ⟨c :: b, rest, ?_, by simpa using e2, e3⟩
+      simp [Spec.Rfc8259.parseChars, h34, h32, h92, e1]
+
+theorem string_sound (cfg : Cfg) (cs : Bytes) (hnu : NoU cs) (h : accepted (finish (feed cfg init (34 :: cs))) = true) :
+    ∃ b rest, Spec.Rfc8259.parseString (34 :: cs) = some (b, rest) ∧ dropWs rest = [] := by
+  have h0 : feedChar cfg init 34 = startString init := feedChar_value cfg init _ 34 rfl rfl (by simp [valueStart])
+  rw [feed_cons, h0] at h
+  obtain ⟨b, rest, e1, e2, e3⟩ := chars_sound cfg (cs.length + 1) cs (startString init) (Nat.lt_succ_self _) rfl rfl rfl rfl hnu h
+  have hv : Spec.Rfc8259.validUtf8 b = true := (validate_iff b).1 (by simpa [startString] using e2)
+  exact ⟨b, rest, by simp [Spec.Rfc8259.parseString, e1, hv], e3⟩
+
+theorem dropWs_split (bs : Bytes) : ∃ w, bs = w ++ dropWs bs := ⟨bs.takeWhile isWs, (List.takeWhile_append_dropWhile).symm⟩
+
+/-- SOUNDNESS for documents whose root is not an array or an object and that contain no `\u` escape -/
+theorem run_sound_scalar_str (cfg : Cfg) (hcm : cfg.comments = false) (bs : Bytes)
+    (hroot : ∀ c r, dropWs bs = c :: r → c ≠ 91 ∧ c ≠ 123) (hnu : NoU bs)
+    (h : accepted (run cfg bs) = true) : ∃ v, parseText (strictFlags cfg) bs = some v := by
+  cases hd : dropWs bs with
+  | nil => exact run_sound_scalar cfg hcm bs (by intro c r e; rw [hd] at e; cases e) h
+  | cons c cs =>
+    by_cases h34 : c = 34
+    · subst h34
+      have h' := h
+      unfold run at h'
+      rw [feed_dropWs cfg init rfl rfl bs, hd] at h'
+      obtain ⟨w, hw⟩ := dropWs_split bs
+      have hnu' : NoU cs := by
+        intro pre post e
+        refine hnu (w ++ 34 :: pre) post ?_
+        rw [hw, hd, e]; simp
+      obtain ⟨b, rest, e1, e2⟩ := string_sound cfg cs hnu' h'
+      exact ⟨.str b, parseText_of _ rfl bs rest _ (by rw [hd]; simp [parseValue, e1]) e2⟩
+    · exact run_sound_scalar cfg hcm bs (by
+        intro c' r e; rw [hd] at e; cases e
+        exact ⟨h34, (hroot c cs hd).1, (hroot c cs hd).2⟩) h
+
 end JsonParser
 end Model
 end JV
